@@ -93,7 +93,7 @@ def materialise(case, d):
                     write_ini(fp, doc)
                 else:
                     json.dump(doc, fp, ensure_ascii=ascii_input)
-            files.append((fname, f["samples"] if f["as_list"] else [f["samples"][0]]))
+            files.append((fname, f["samples"] if f["as_list"] else [ini_effective(f["samples"][0]) if fmt == "ini" else f["samples"][0]]))
         lookup = ".".join(spec["lookup"]) if spec["lookup"] else "-"
         if spec["via"] == "m":
             m_args += ["-m", name] + ([lookup] if spec["lookup"] or spec.get("explicit_dash") else []) + [files[0][0]]
@@ -390,7 +390,25 @@ def ini_samples(draw):
     for s in sections:
         opts = draw(st.lists(st.sampled_from(["host", "port", "debug", "name", "timeout", "ratio"]), min_size=1, max_size=4, unique=True))
         doc[s] = {o: draw(st.sampled_from(["localhost", "8080", "true", "false", "1.5", "x y", "2018-01-02", "a"])) for o in opts}
+    if draw(st.integers(0, 2)) == 0:
+        # a [DEFAULT] section: its options belong to every section (configparser semantics), it is not a section itself
+        opts = draw(st.lists(st.sampled_from(["host", "port", "debug", "name", "timeout", "ratio", "owner"]), min_size=1, max_size=4, unique=True))
+        doc = dict([("DEFAULT", {o: draw(st.sampled_from(["localhost", "8080", "true", "1.5", "d"])) for o in opts})] + list(doc.items()))
     return [doc]
+
+
+def ini_effective(doc):
+    """what an INI document means: every section with the defaults first (an overriding option keeps the default's place)"""
+    if not isinstance(doc, dict) or "DEFAULT" not in doc:
+        return doc
+    out = {}
+    for sec, options in doc.items():
+        if sec == "DEFAULT":
+            continue
+        d = dict(doc["DEFAULT"])
+        d.update(options)
+        out[sec] = d
+    return out
 
 
 @st.composite
@@ -449,6 +467,14 @@ def cases(draw, tier="quick", formats=("json", "json", "json", "yaml", "ini")):
         o2 = {k: 1 for k in ks[:shared] + ks[shared + a_only:]}
         specs[0]["files"][0] = {"as_list": True, "samples": [{"first": o1, "second": o2}]}
         o["merge"] = [["percent", 100 * shared / total if (100 * shared) % total else 100 * shared // total]]
+        o["dkr"], o["dkf"] = [], []
+    if fmt != "ini" and draw(st.integers(0, 11)) == 0:
+        # thresholds of one percent and below: two objects sharing 1 of 20 keys (5 %) are similar under --merge percent_1 / _0.5 / _0.1
+        ks = ["k%02d" % i for i in range(20)]
+        o1 = {k: 1 for k in ks[:10]}
+        o2 = {k: 1 for k in ks[9:]}
+        specs[0]["files"][0] = {"as_list": True, "samples": [{"first": o1, "second": o2}]}
+        o["merge"] = [["percent", draw(st.sampled_from([1, 0.5, 0.1]))]]
         o["dkr"], o["dkf"] = [], []
     if fmt != "ini" and draw(st.integers(0, 9)) == 0:
         # string constants right at the documented limits (15 distinct values, --max-strings-literals just above the count):
